@@ -91,3 +91,7 @@ Definition nack_responder_fastclose_xcfg := mkX nack_responder_cfg true false.
 Definition twcc_exit_on_werr_xcfg := mkX twcc_sender_cfg false true.
 
 Definition xsafe (xc : xcfg) : bool := negb (x_close_fast xc) && negb (x_exit_on_werr xc).
+
+(* gcc before the fix: commit of the deepening round: cc.Interceptor has no UnbindLocalStream, the pacer keeps
+   the writer of an unbound stream for ever (LeakyBucketPacer.ssrcToWriter / NoOpPacer.ssrcToWriter) *)
+Definition gcc_nounbind_cfg := mkCfg LoopAtNew true ChBufNB SendOnTraffic true CloseIdem TPerSsrc false true false SpawnNone.
